@@ -587,8 +587,8 @@ def query_world(run, wid, root, tmp, tier):
             check_nohistory(run, cid, (wid, "nohist", d), [os.path.join(root, d)], None, "nohistory-folder")
     # ---- single files: every file on disk (recorded in some, all or no generations)
     for i, f in enumerate(fs):
-        if os.path.isdir(os.path.join(root, f)):
-            continue
+        if os.path.isdir(os.path.join(root, f)) or not os.path.exists(os.path.join(root, f)):
+            continue  # (a dangling symbolic link cannot be named: the option demands an existing path)
         h = W.owner_of(f, roots)
         mates = [g for g in fs if g != f and W.owner_of(g, roots) == h and not os.path.isdir(os.path.join(root, g))]
         other = mates[(i + rot) % len(mates)] if mates else None
